@@ -271,6 +271,13 @@ func runField(r *ev.Report, fc fieldCase, a rune, shape string) {
 		v = M{hostile: 1.0, "type": "Link"}
 	case "entity-in-plain-field":
 		v = fmt.Sprintf("a&#%d;%sb", a, telltale)
+	case "percent-encoded-in-url":
+		// net/url decodes %XX in host names (bytes >= 0x80) and paths
+		enc := ""
+		for _, b := range []byte(string(a)) {
+			enc += fmt.Sprintf("%%%02X", b)
+		}
+		v = "https://ex" + enc + "7mample.com/p" + enc + "[7m/x"
 	}
 	d := fc.Doc()
 	fc.Set(d, v)
@@ -434,7 +441,7 @@ func main() {
 		r.Distinct(fmt.Sprint(j.ca.Name, j.a, j.e.Name))
 	})
 	// object fields (sequential: pub.New spawns goroutines and uses the shared peer)
-	shapes := []string{"string", "list", "object-with-hostile-type", "hostile-key", "entity-in-plain-field"}
+	shapes := []string{"string", "list", "object-with-hostile-type", "hostile-key", "entity-in-plain-field", "percent-encoded-in-url"}
 	for _, fc := range fieldCases() {
 		for _, a := range as {
 			for _, sh := range shapes {
